@@ -44,7 +44,8 @@ RULE = ('route tables (1..3 plugins, 0..3 routes each: static with 1..3 upstream
         'upstream recv schedules; thorough adds every table of 2 plugins x <=2 routes over 8 route shapes x 3 paths '
         'x 2 rewrite settings; distinct by canonical JSON; non-trivial = inside the property quantifier')
 ASSUMPTIONS = [
-    'only the first request of a connection (follow-ups on a kept-alive reverse-proxy connection are C04, defect D12)',
+    'only the first request of a connection (follow-ups on a kept-alive reverse-proxy connection are C04, defect D12); '
+    'inputs whose bytes continue after the first complete request are skipped on both sides (`leftover`)',
     'TLS handshake of upstream.wrap() is out of scope: wrap is patched to a no-op and only the request for it is observed',
     'regex matching is a parameter of the model: the match table is computed by the harness with the real `re`',
     'random.choice is a scripted index; plugins keep the base-class before_routing/protocols/regexes; '
@@ -154,7 +155,7 @@ class _Choice:
 
 
 def _classify(segs):
-    """parse-exc / incomplete / notweb / None (a completed web-server request)"""
+    """parse-exc / incomplete / notweb / leftover / None (exactly one completed web-server request)"""
     from proxy.http.parser import HttpParser, httpParserTypes
     from proxy.http.protocols import httpProtocols
     p = HttpParser(httpParserTypes.REQUEST_PARSER)
@@ -167,6 +168,10 @@ def _classify(segs):
         return 'incomplete', p
     if p.http_handler_protocol != httpProtocols.WEB_SERVER:
         return 'notweb', p
+    if p.buffer is not None and len(p.buffer) > 0:
+        # bytes after the first complete request: since 84c574d they are handed to on_client_data and handled as
+        # follow-up requests (a second handle_request) — C04's subject, outside C12 (first request only)
+        return 'leftover', p
     return None, p
 
 
@@ -754,6 +759,9 @@ def corpus():
     cs.append(_mk_case(rng, [[_static('/', [b'http://a.test'])]], [0], b'/\xff', 0, 'none', up=[]))
     cs.append(_mk_case(rng, [[_static('/', [b'http://a.test/ws'])]], [0], b'/chat', 1, 'none', up=[b'\x81\x02hi'.hex()],
                        ws=True))
+    # bytes continuing after the first complete request: follow-up handling (C04), skipped here
+    cs.append(_mk_case(rng, [[_static('/', [b'http://a.test'])]], [0], b'/', 0, up=[], cut=False,
+                       raw=b'GET /a HTTP/1.1\r\nHost: me\r\n\r\nGET /b HTTP/1.1\r\nHost: me\r\n\r\n'))
     # requests that never reach the web server plugin
     for raw in (b'GET http://h.test/ HTTP/1.1\r\n\r\n', b'GET / HTTP/1.1\r\nHost: a', b'GET / HTTP/2\r\n\r\n',
                 b' / HTTP/1.1\r\n\r\n', b'GET /\r\n\r\n'):
